@@ -1,4 +1,5 @@
 import PandoraModel.Properties.C04
+import PandoraModel.Properties.C04C02
 open Pandora.C04
 -- the end-point tests of criteria.py equal the set statements
 #print axioms vmBit1_iff
@@ -33,3 +34,18 @@ open Pandora.C04
 #print axioms source_reg_or
 #print axioms source_story
 #print axioms source_repeated_refinement
+-- C04 ∘ C02 (Properties/C04C02.lean): `computable` is a theorem about the matching-cost model
+#print axioms Pandora.C04C02.maskOk_eq
+#print axioms Pandora.C04C02.rightOk_eq
+#print axioms Pandora.C04C02.nDisp_eq
+#print axioms Pandora.C04C02.computable_iff_cause
+#print axioms Pandora.C04C02.rawPlane_isNan_iff
+#print axioms Pandora.C04C02.rawOK_rawVal
+#print axioms Pandora.C04C02.nan_iff_not_computable
+#print axioms Pandora.C04C02.nan_iff_not_computable_of_wf
+#print axioms Pandora.C04C02.mcAllNan_eq
+#print axioms Pandora.C04C02.composedMask_eq
+#print axioms Pandora.C04C02.invalid_iff_all_costs_nan
+#print axioms Pandora.C04C02.invalid_iff_all_costs_nan_of_wf
+#print axioms Pandora.C04C02.composed_spec
+#print axioms Pandora.C04C02.composed_spec_disp
